@@ -180,7 +180,7 @@ def c06(driver):
             # direct merge: the integration branches are gone afterwards;
             # take them as they were when the final push started
             pushes = [c for c in obs.get('cmds', [])
-                      if c['cmd'].startswith('git push --all') and
+                      if ('--atomic' in c['cmd'] and c['cmd'].startswith('git push')) and
                       'before' in c]
             refs = {r: s for r, s in (pushes[-1]['before'] if pushes
                                       else pre['refs']).items()
@@ -200,4 +200,80 @@ def c06(driver):
     return mon
 
 
-REGISTRY = {'c01': c01, 'c03': c03, 'c06': c06}
+def tags(state):
+    return {k[len('refs/tags/'):]: v for k, v in state['refs'].items()
+            if k.startswith('refs/tags/')}
+
+
+def c08_judge(w, pre, ev, obs, post, left=None):
+    """C08 on one job.  `left`: refs as a third party left them (overrides
+    the pre-state for those refs).  Returns list of (fingerprint, msg)."""
+    out = []
+    h0, h1 = dict(heads(pre)), heads(post)
+    if left:
+        h0.update(left)
+    site = '?'
+    for c in obs.get('cmds', []):
+        if c['cmd'].startswith('git push'):
+            site = c.get('site', site)
+            words = c['cmd'].split()
+            if any(x in ('--force', '-f', '--force-with-lease') or
+                   x.strip("'").startswith('+') for x in words[2:]):
+                out.append(('forced-push@%s' % site,
+                            'forced push: %s' % c['cmd']))
+    is_delete = ev[0] == 'delete_branch'
+    for b, old in h0.items():
+        kind = b.split('/')[0]
+        new = h1.get(b)
+        if kind in DEST_KINDS:
+            if new is None:
+                tag_ok = False
+                if is_delete and ev[1] == b:
+                    ver = b.split('/', 1)[1]
+                    t = tags(post)
+                    name = ver + '.archived_hotfix_branch' \
+                        if kind == 'hotfix' else ver
+                    tag_ok = name in t and w.git(
+                        'rev-parse', t[name] + '^{commit}') == old
+                if not tag_ok:
+                    out.append(('dest-deleted:%s@%s' % (b, site),
+                                'destination branch %s deleted without an '
+                                'archive tag on its tip (event %s)' % (b,
+                                                                       ev)))
+            elif new != old and not w.is_ancestor(old, new):
+                out.append(('dest-rewritten:%s@%s' % (b, site),
+                            '%s updated %s -> %s which is not a '
+                            'fast-forward (event %s)' % (b, old[:10],
+                                                         new[:10], ev)))
+        elif not is_robot_ref(b):
+            if new != old:
+                what = 'deleted' if new is None else \
+                    'moved %s -> %s' % (old[:10], new[:10])
+                out.append(('foreign-ref-%s@%s' % (
+                    'deleted' if new is None else 'moved', site),
+                    'branch %s, which Bert-E does not own, was %s (event '
+                    '%s, push issued by %s)' % (b, what, ev, site)))
+    # consequence: nothing that was a destination tip becomes unreachable
+    allrefs = list(post['refs'].values())
+    for b, old in dests(pre).items():
+        if not any(old == r or w.is_ancestor(old, r) for r in allrefs):
+            out.append(('dest-tip-unreachable:%s@%s' % (b, site),
+                        'former tip %s of %s is no longer reachable from any '
+                        'branch or tag' % (old[:10], b)))
+    return out
+
+
+def c08(driver):
+    def mon(w, pre, ev, obs, post):
+        if obs.get('status') is None and not obs.get('cmds'):
+            return [], {}
+        pushes = [c for c in obs.get('cmds', [])
+                  if c['cmd'].startswith('git push')]
+        stats = {'c08_jobs': 1, 'c08_pushes': len(pushes)}
+        found = c08_judge(w, pre, ev, obs, post)
+        return [{'property': 'C08', 'fingerprint': fp, 'msg': msg}
+                for fp, msg in found], stats
+    return mon
+
+
+REGISTRY = {'c01': c01, 'c03': c03, 'c06': c06, 'c08': c08}
